@@ -7,7 +7,9 @@
 (* the current root envelope.  State st:                                   *)
 (*   staged, applied : root or NoRoot                                      *)
 (*   ssync, psync    : the staging / policy ref equals the target of its   *)
-(*                     latest log entry (FALSE after tampering)            *)
+(*                     latest log entry (FALSE after tampering; an edit    *)
+(*                     through the API commits on top of the staging tip   *)
+(*                     and records it, which brings staging back in sync)  *)
 (*   ff              : the staged commit descends from the applied one     *)
 (*   chain           : every applied policy so far is chained to its       *)
 (*                     predecessor (what LoadCurrentState(policy) checks)  *)
@@ -34,15 +36,15 @@ Step(st, op, Dev) ==
            ELSE Ok([st EXCEPT !.staged = [pr |-> {op.s}, thr |-> 1, sigs |-> {op.s}]])
       [] op.op = "AddRootKey" ->
            IF ~Exists(st.staged) \/ op.s \notin st.staged.pr THEN No(st)
-           ELSE Ok([st EXCEPT !.staged = [pr |-> @.pr \cup {op.k}, thr |-> @.thr, sigs |-> {op.s}]])
+           ELSE Ok([st EXCEPT !.staged = [pr |-> @.pr \cup {op.k}, thr |-> @.thr, sigs |-> {op.s}], !.ssync = TRUE])
       [] op.op = "RemoveRootKey" ->
            IF ~Exists(st.staged) \/ op.s \notin st.staged.pr \/ Cardinality(st.staged.pr) <= st.staged.thr THEN No(st)
-           ELSE Ok([st EXCEPT !.staged = [pr |-> @.pr \ {op.k}, thr |-> @.thr, sigs |-> {op.s}]])
+           ELSE Ok([st EXCEPT !.staged = [pr |-> @.pr \ {op.k}, thr |-> @.thr, sigs |-> {op.s}], !.ssync = TRUE])
       [] op.op = "UpdateRootThreshold" ->
            IF ~Exists(st.staged) \/ op.s \notin st.staged.pr \/ op.thr <= 0 \/ Cardinality(st.staged.pr) < op.thr THEN No(st)
-           ELSE Ok([st EXCEPT !.staged = [pr |-> @.pr, thr |-> op.thr, sigs |-> {op.s}]])
+           ELSE Ok([st EXCEPT !.staged = [pr |-> @.pr, thr |-> op.thr, sigs |-> {op.s}], !.ssync = TRUE])
       [] op.op = "SignRoot" ->
-           IF ~Exists(st.staged) THEN No(st) ELSE Ok([st EXCEPT !.staged.sigs = @ \cup {op.s}])
+           IF ~Exists(st.staged) THEN No(st) ELSE Ok([st EXCEPT !.staged.sigs = @ \cup {op.s}, !.ssync = TRUE])
       [] op.op = "Apply" ->
            IF ~st.ssync \/ ~st.psync THEN No(st)                          \* a ref disagrees with its latest log entry
            ELSE IF ~Exists(st.staged) THEN No(st)
